@@ -148,7 +148,9 @@ REG['TlsAlertDescription'] = dict(ref='RFC 8446 6 / IANA TLS Alert Registry', va
     'DECRYPT_ERROR': 51, 'PROTOCOL_VERSION': 70, 'INSUFFICIENT_SECURITY': 71, 'INTERNAL_ERROR': 80, 'INAPPROPRIATE_FALLBACK': 86,
     'USER_CANCELED': 90, 'MISSING_EXTENSION': 109, 'UNSUPPORTED_EXTENSION': 110, 'CERTIFICATE_UNOBTAINABLE': 111,
     'UNRECOGNIZED_NAME': 112, 'BAD_CERTIFICATE_STATUS_RESPONSE': 113, 'BAD_CERTIFICATE_HASH_VALUE': 114,
-    'UNKNOWN_PSK_IDENTITY': 115, 'CERTIFICATE_REQUIRED': 116, 'NO_APPLICATION_PROTOCOL': 120})
+    'UNKNOWN_PSK_IDENTITY': 115, 'CERTIFICATE_REQUIRED': 116, 'NO_APPLICATION_PROTOCOL': 120,
+    # RFC 2246 / 4346 / 5246 7.2 (reserved in later versions, still sent by older peers)
+    'DECRYPTION_FAILED': 21, 'DECOMPRESSION_FAILURE': 30, 'NO_CERTIFICATE': 41, 'EXPORT_RESTRICTION': 60, 'NO_RENEGOTIATION': 100})
 REG['TlsChangeCipherSpecType'] = dict(ref='RFC 5246 7.1', values={'CHANGE_CIPHER_SPEC': 1})
 REG['TlsHandshakeType'] = dict(ref='IANA TLS HandshakeType registry', values={
     'HELLO_REQUEST': 0, 'CLIENT_HELLO': 1, 'SERVER_HELLO': 2, 'HELLO_VERIFY_REQUEST': 3, 'NEW_SESSION_TICKET': 4,
